@@ -126,6 +126,7 @@ def check(run):
     crow = arb.evaluate(run, part, fn="ctl_case", extra=arb.ctl_term, tag="arbctl")
     arb.judge_delivery(run, part, crow, "C02", "the holder of a (listener, host) pair is then chosen among objects that are not the current ones "
                        "(a re-created TransportServer keeps the age of its predecessor)", kinds=("ts", "gc"))
+    arb.judge_files(run, part, crow, "C02")
     run.cov["controller_level_histories"] = len(part)
     run.sample({"admission_case": adm[0]} if adm else {})
     for c in cases[:1]:
